@@ -36,6 +36,9 @@ def family(rp):
     f.add("call-wrong-second-argument-type", fn + "def r: Int := f(1, 2)", "reject")
     f.add("call-nullable-parameter-none", "def g(a: Int?) -> Int => 5\ndef r: Int := g(None)", "accept")
     f.add("call-nullable-parameter-value", "def g(a: Int?) -> Int => 5\ndef r: Int := g(3)", "accept")
+    f.add("call-None-after-nullable-parameter", "def n(a: Int?, b: Int) -> Int => b\ndef r: Int := n(None, None)", "reject")
+    f.add("call-None-for-nullable-parameter-first", "def n(a: Int?, b: Int) -> Int => b\ndef r: Int := n(None, 2)", "accept")
+    f.add("call-nullable-value-after-nullable-parameter", "def n(a: Int?, b: Int) -> Int => b\ndef y: Int? := 1\ndef r: Int := n(1, y)", "reject")
     f.add("call-none-into-non-nullable-parameter", fn + "def r: Int := f(None)", "reject")
     f.add("return-conforming", "def h(a: Int) -> Int =>\n    return a", "accept")
     f.add("return-wrong-type", "def h(a: Int) -> Int =>\n    return \"s\"", "reject")
